@@ -491,6 +491,122 @@ fn check_graph(g: &Graph, salt: u64, arrays: bool, stats: &mut Stats, counting: 
     Ok(())
 }
 
+/// "however deep or wide the graph is": chains, fans, layered and sparse random DAGs on 40 / 120 /
+/// 400 nodes, half of them with one edge back to an earlier node
+fn large_graph(t: &mut Tape) -> (Graph, &'static str) {
+    let n = *t.pick(&[40usize, 120, 400]);
+    let mut adj = vec![vec![false; n]; n];
+    let shape = match t.below(5) {
+        0 => {
+            for i in 0..n - 1 {
+                adj[i][i + 1] = true;
+            }
+            "chain"
+        }
+        1 => {
+            for i in 1..n {
+                adj[0][i] = true;
+            }
+            "fan-out"
+        }
+        2 => {
+            for i in 0..n - 1 {
+                adj[i][n - 1] = true;
+            }
+            "fan-in"
+        }
+        3 => {
+            let w = 8;
+            for i in 0..n {
+                let next = (i / w + 1) * w;
+                if next >= n {
+                    break;
+                }
+                for _ in 0..1 + t.below(3) {
+                    let j = next + t.below(w.min(n - next));
+                    adj[i][j] = true;
+                }
+            }
+            "layered"
+        }
+        _ => {
+            for i in 0..n - 1 {
+                for _ in 0..2 {
+                    let j = i + 1 + t.below(n - i - 1);
+                    adj[i][j] = true;
+                }
+            }
+            "sparse-dag"
+        }
+    };
+    if t.flag() {
+        // an edge from a node back to one of the nodes that reach it (itself included): a cycle
+        // of any length between 1 and the depth of the graph
+        let a = t.below(n);
+        let mut reach = vec![false; n];
+        reach[a] = true;
+        let mut stack = vec![a];
+        while let Some(v) = stack.pop() {
+            for u in 0..n {
+                if adj[u][v] && !reach[u] {
+                    reach[u] = true;
+                    stack.push(u);
+                }
+            }
+        }
+        let anc: Vec<usize> = (0..n).filter(|&u| reach[u]).collect();
+        let b = anc[t.below(anc.len())];
+        adj[a][b] = true;
+    }
+    (Graph { n, adj }, shape)
+}
+
+/// large graphs go through the binary (a stack that overflows there is C04's business and must
+/// not take the harness with it): recursion codes on stderr <=> the graph has a cycle
+fn check_large_graph(g: &Graph, shape: &str, salt: u64, stats: &mut Stats, counting: bool) -> Result<(), Failure> {
+    let cyc = g.cyclic();
+    let (kind, text) = match salt % 3 {
+        0 => ("fb", realise_fb(g, salt, false).0),
+        1 => ("type", realise_type(g, salt, false).0),
+        _ => match realise_mixed(g, salt, false) {
+            Some(m) => ("mixed", m.0),
+            None => ("fb", realise_fb(g, salt, false).0),
+        },
+    };
+    let dir = crate::drive::Scratch::new("c07");
+    let p = dir.write("graph.st", text.as_bytes()).to_string_lossy().to_string();
+    let out = crate::drive::run_cli(&["check".to_string(), p], None);
+    if out.timed_out {
+        stats.inconclusive += 1;
+        return Ok(());
+    }
+    let codes: Vec<String> = crate::drive::parse_cli_diags(&out.stderr).into_iter().map(|d| d.code).collect();
+    if counting {
+        stats.case(true, hash_str(&text));
+        stats.class(&format!("large.{}.n{}.{}.{}", shape, g.n, kind, if cyc { "cyclic" } else { "acyclic" }));
+    }
+    let abnormal = !matches!(out.status, Some(c) if c != 101);
+    if abnormal {
+        // not a verdict at all: counted, reported by C04's declaration-graph family
+        if counting {
+            stats.class("large.abnormal-exit(not judged)");
+        }
+        return Ok(());
+    }
+    let recursive = codes.iter().any(|c| c == "P0010" || c == "P0013");
+    let fail = |k: &str, d: String| Failure::new(&format!("large-graph-{}", kind), k, d, json!({"shape": shape, "nodes": g.n, "cyclic": cyc, "text": text, "realisation": kind}));
+    if cyc && !recursive {
+        return Err(fail("cycle-accepted", format!("{} graph on {} nodes has a cycle but no recursion code was reported (exit {:?}, codes {:?})", shape, g.n, out.status, codes)));
+    }
+    if !cyc && recursive {
+        return Err(fail("acyclic-rejected", format!("acyclic {} graph on {} nodes was reported as recursive (codes {:?})", shape, g.n, codes)));
+    }
+    if !cyc && !codes.is_empty() && counting {
+        stats.class("large.acyclic-not-ok(health)");
+    }
+    Ok(())
+}
+
 fn random_graph(t: &mut Tape) -> Graph {
     let n = 5 + t.below(8);
     // edge probability drawn per case: sparse DAG-ish ... dense
@@ -521,7 +637,7 @@ pub fn run(ctx: &Ctx) -> i32 {
         ctx.tier,
         ctx.seed,
         "exploration",
-        "directed graphs with self-loops: ALL graphs on 1..4 nodes (2+16+512+65536, exhaustive) and random graphs on 5..12 nodes (edge density drawn per case, DAG-biased half of the time with an optional single back edge), each realised as a function-block instance graph (VAR / VAR_INPUT / VAR_OUTPUT instances) as a type graph (alias / structure element) and as a mixed graph (every node a function block or a structure, edges = instance variables / structure elements; in a third of the graphs a quarter of the edges go through ARRAY OF and are soft: cycles only through them are not judged), declarations in a seed-derived order, every reference spelled in lower, UPPER or Capitalised case, other variables / elements (plain, initialised, enumeration, array, string, structure with initialiser) declared before the edge declarations, a quarter of the edges declared twice (two instances / elements of one type); in a third of the units bystander declarations of every other kind (all TYPE forms incl. structure initialisation, function, program, configuration). Oracle: reference DFS cycle test (cross-checked by transitive closure for n<=4): cyclic => P0010 or P0013 reported; acyclic => neither. Non-trivial: >= 2 nodes and >= 1 edge; distinct by program text.",
+        "directed graphs with self-loops: ALL graphs on 1..4 nodes (2+16+512+65536, exhaustive) and random graphs on 5..12 nodes (edge density drawn per case, DAG-biased half of the time with an optional single back edge), each realised as a function-block instance graph (VAR / VAR_INPUT / VAR_OUTPUT instances) as a type graph (alias / structure element) and as a mixed graph (every node a function block or a structure, edges = instance variables / structure elements; in a third of the graphs a quarter of the edges go through ARRAY OF and are soft: cycles only through them are not judged), declarations in a seed-derived order, every reference spelled in lower, UPPER or Capitalised case, other variables / elements (plain, initialised, enumeration, array, string, structure with initialiser) declared before the edge declarations, a quarter of the edges declared twice (two instances / elements of one type); in a third of the units bystander declarations of every other kind (all TYPE forms incl. structure initialisation, function, program, configuration); in a third of the function-block realisations bodies that invoke the instances, with instances and variables named like declarations of the unit. Large graphs (chains, fan-out, fan-in, layered and sparse DAGs on 40 / 120 / 400 nodes, half with one back edge) through `ironplcc check`. Oracle: reference DFS cycle test (cross-checked by transitive closure for n<=4): cyclic => P0010 or P0013 reported; acyclic => neither. Non-trivial: >= 2 nodes and >= 1 edge; distinct by program text.",
     );
     // exhaustive part
     let mut items: Vec<(usize, u64)> = vec![];
@@ -552,6 +668,16 @@ pub fn run(ctx: &Ctx) -> i32 {
         let g = random_graph(&mut t);
         let salt = t.u64();
         check_graph(&g, salt, salt % 3 == 0, stats, counting)
+    });
+    rep.add(out);
+    let cases = ctx.tier.pick(240, 6_000);
+    let out = run_tapes("C07", ctx.seed ^ 0x1a26e, ctx.threads, cases, 24, |tape, stats, counting| {
+        // (the 24 tape bytes are a seed: a large graph draws thousands of choices)
+        let ext = crate::tape::derived(tape, 8192);
+        let mut t = Tape::new(&ext);
+        let (g, shape) = large_graph(&mut t);
+        let salt = t.u64();
+        check_large_graph(&g, shape, salt, stats, counting)
     });
     rep.add(out);
     let bad: u64 = rep.stats.classes.iter().filter(|(k, _)| k.contains("health")).map(|(_, v)| *v).sum();
